@@ -92,6 +92,77 @@ def _mode_atoms(test):
     return out
 
 
+def mask_scalar_products(fnode):
+    """[(node, value)]: `mask * c` (also `mask * c1 / c2`, `c * mask`) with `mask` a BOOLEAN tensor (a comparison or a combination of comparisons) and c a Python
+    number: the product is a tensor of the process-wide DEFAULT dtype holding c rounded to it; multiplied into float64 data afterwards it carries float32 digits.
+    Only constants that float32 cannot represent exactly are reported (pi, 1/12; not 2.0 or 0.5)."""
+    import struct
+    masks = set()
+    for n in _own_nodes(fnode):
+        if isinstance(n, ast.Assign) and len(n.targets) == 1 and isinstance(n.targets[0], ast.Name):
+            core = n.value
+            while isinstance(core, ast.Call) and isinstance(core.func, ast.Attribute) and core.func.attr in ('squeeze', 'unsqueeze', 'view', 'reshape', 'clone', 'bool'):
+                core = core.func.value
+            if isinstance(core, ast.Compare) or (isinstance(core, ast.UnaryOp) and isinstance(core.op, ast.Invert)) or \
+                    (isinstance(core, ast.BinOp) and isinstance(core.op, (ast.BitAnd, ast.BitOr)) and
+                     all(isinstance(x, (ast.Name, ast.Compare, ast.UnaryOp, ast.BinOp)) for x in (core.left, core.right))):
+                masks.add(n.targets[0].id)
+
+    def is_mask(e):
+        if isinstance(e, ast.Name):
+            return e.id in masks
+        if isinstance(e, ast.UnaryOp) and isinstance(e.op, ast.Invert):
+            return is_mask(e.operand)
+        if isinstance(e, ast.Compare):
+            return True
+        if isinstance(e, ast.BinOp) and isinstance(e.op, (ast.BitAnd, ast.BitOr)):
+            return is_mask(e.left) and is_mask(e.right)
+        return False
+
+    def num(e):
+        if isinstance(e, ast.Constant) and isinstance(e.value, (int, float)) and not isinstance(e.value, bool):
+            return float(e.value)
+        if isinstance(e, ast.Attribute) and e.attr == 'pi' and dotted(e.value) in ('torch', 'math', 'np', 'numpy'):
+            return 3.141592653589793
+        if isinstance(e, ast.UnaryOp) and isinstance(e.op, ast.USub):
+            v = num(e.operand)
+            return None if v is None else -v
+        if isinstance(e, ast.BinOp) and isinstance(e.op, (ast.Mult, ast.Div)):
+            a, b = num(e.left), num(e.right)
+            if a is None or b is None or (isinstance(e.op, ast.Div) and b == 0):
+                return None
+            return a * b if isinstance(e.op, ast.Mult) else a / b
+        return None
+
+    def mval(e):
+        """(scalar value carried by a default-dtype mask product) or None"""
+        if is_mask(e):
+            return 1.0
+        if isinstance(e, ast.BinOp) and isinstance(e.op, (ast.Mult, ast.Div)):
+            l, r = mval(e.left), mval(e.right)
+            nl, nr = num(e.left), num(e.right)
+            if l is not None and nr is not None:
+                return l * nr if isinstance(e.op, ast.Mult) else (l / nr if nr else None)
+            if r is not None and nl is not None and isinstance(e.op, ast.Mult):
+                return nl * r
+        return None
+    out, seen = [], set()
+    for n in ast.walk(fnode):
+        if isinstance(n, ast.BinOp) and isinstance(n.op, (ast.Mult, ast.Div)) and id(n) not in seen:
+            v = mval(n)
+            if v is not None and not is_mask(n):
+                for x in ast.walk(n):
+                    seen.add(id(x))
+                if struct.unpack('f', struct.pack('f', v))[0] != v:
+                    out.append((n, v))
+    return out
+
+
+MASKSCALAR_TABLE = {
+    ('pypose.lietensor.operation:so3_Jl_inv', '~v0 * 1.0 / 12.0'): 'coefficient of K @ K with |K| <= eps: the float32 rounding of 1/12 (3e-9) multiplies a term of size eps^2',
+}
+
+
 @guarded
 def rule_dtype_mod(repo, rid, modules, exempt):
     """exempt: {(function fq, normalised construct): reason}"""
@@ -115,6 +186,14 @@ def rule_dtype_mod(repo, rid, modules, exempt):
                     continue
                 res.add(Finding(rid, f, '`%s` constructs a tensor without a dtype: it gets the process-wide default (float32) whatever the dtype of the problem, '
                                 'so float64 inputs lose precision there or raise a dtype mismatch' % src(c)[:70], node=c))
+            for node, val in mask_scalar_products(f.node):
+                key = (f.fq, norm_construct(node, f.node))
+                res.inst({'function': f.fq, 'boolean mask times a Python number': src(node)[:50], 'value': val, 'tabled': MASKSCALAR_TABLE.get(key)}, key)
+                if key not in MASKSCALAR_TABLE:
+                    res.add(Finding(rid, f, '`%s` multiplies a BOOLEAN mask with the Python number %.17g: the product is a tensor of the process-wide default dtype (float32), the '
+                                    'constant is rounded to it (%.9g) before it meets the float64 data - float64 results carry float32 digits on this branch'
+                                    % (src(node)[:50], val, __import__('struct').unpack('f', __import__('struct').pack('f', val))[0]), node=node,
+                                    construct='mask times python number|' + norm_construct(node, f.node)))
     res.inst({'functions scanned': n, 'tabled sites found': len(seen_ex)}, 'scan')
     fx = ast.parse('def f(x, n):\n    a = torch.zeros(n)\n    b = torch.zeros(n, dtype=x.dtype)\n    c = torch.zeros(n, **kw)\n    return a, b, c\n').body[0]
     if len(untyped_creators(fx)) != 1:
@@ -357,6 +436,7 @@ GUARD_TABLE = {
     ('pypose.optim.optimizer:LevenbergMarquardt.step', 'exc'): {'except Exception': 'a failing linear solver ends the trial with the state before it (C08.EXC)'},
     ('pypose.optim.optimizer:LevenbergMarquardt.step', 'sat'): {'clamp()': 'diagonal of J^T W J clamped to the documented [min, max] (C07.DAMP)'},
     ('pypose.optim.scheduler:StopOnPlateau.step', 'eps'): {'self.optimizer.last + 1e-31': '1e-31 in the denominator of the relative decrease shown in verbose mode only'},
+    ('pypose.module.pf:PF.resample_particles', 'sat'): {'clamp(max=*)': 'resampling index bounded by the number of particles (F50): searchsorted returns N for draws above the last cumulative weight'},
     ('pypose:_ensure_sparse_backend_version', 'exc'): {'except PackageNotFoundError': 'optional sparse backend absent: feature disabled'},
     ('pypose:_load_optional_backend_attr', 'exc'): {'except ImportError': 'optional sparse backend absent: feature disabled'},
 }
@@ -558,6 +638,328 @@ def rule_argmut(repo, rid, modules):
     return res
 
 
+GRAPH_CUTS = {'detach', 'item', 'tolist', 'numpy'}
+DEVICE_MOVES = {'cpu', 'cuda', 'xpu', 'pin_memory'}
+PRECISION = {'float', 'double', 'half', 'bfloat16', 'int', 'long', 'short', 'bool', 'char', 'byte'}
+GRAD_MODES = {'no_grad', 'inference_mode', 'enable_grad', 'set_grad_enabled'}
+GLOBAL_SETTERS = {'set_default_dtype', 'set_default_device', 'set_default_tensor_type', 'set_grad_enabled', 'set_printoptions', 'use_deterministic_algorithms', 'manual_seed',
+                  'set_num_threads', 'set_float32_matmul_precision', 'filterwarnings', 'simplefilter', 'set_rng_state', 'set_flush_denormal', 'set_warn_always'}
+
+
+def hygiene_sites(f):
+    """[(key, node)] for a FuncInfo: operations that cut the autograd graph ('detach', 'item', 'tolist', 'numpy', '.data', 'float()' / 'int()' of a tensor expression),
+    move between devices ('cpu', 'cuda'), change the numeric type ('float', 'long', '.to(torch.float32)' ...), switch the grad mode (with / decorator), or set
+    process-wide state (torch.set_*, warnings filters, setattr on a module, os.environ)"""
+    out = []
+    for dn in f.decorator_names():
+        if dn.split('.')[-1] in GRAD_MODES:
+            out.append(('mode:' + dn.split('.')[-1], f.node))
+    # a buffer registered from `x.detach().clone()` is a constant copy by construction: not a cut on a differentiable path
+    buffer_copies = set()
+    for n in _own_nodes(f.node):
+        if isinstance(n, ast.Call) and isinstance(n.func, ast.Attribute) and n.func.attr == 'register_buffer':
+            for x in ast.walk(n):
+                if isinstance(x, ast.Call) and isinstance(x.func, ast.Attribute) and x.func.attr == 'clone' and isinstance(x.func.value, ast.Call) and \
+                        isinstance(x.func.value.func, ast.Attribute) and x.func.value.func.attr == 'detach':
+                    buffer_copies.add(id(x.func.value))
+    for n in _own_nodes(f.node):
+        if isinstance(n, ast.Call):
+            d = dotted(n.func) or ''
+            nm = (d or (n.func.attr if isinstance(n.func, ast.Attribute) else '')).split('.')[-1]
+            meth = isinstance(n.func, ast.Attribute) and not d.startswith(('torch.', 'math.', 'np.', 'warnings.', 'os.'))
+            if meth and not n.args and not n.keywords and nm in GRAPH_CUTS:
+                if id(n) not in buffer_copies:
+                    out.append(('cut:' + nm, n))
+            elif meth and nm in DEVICE_MOVES:
+                out.append(('dev:' + nm, n))
+            elif meth and not n.args and not n.keywords and nm in PRECISION:
+                out.append(('prec:' + nm, n))
+            elif meth and nm in ('to', 'type') and any((dotted(a) or '').startswith('torch.') and (dotted(a) or '').split('.')[-1] in
+                                                   ('float16', 'float32', 'float64', 'bfloat16', 'half', 'float', 'double', 'int32', 'int64', 'long', 'int', 'uint8', 'bool')
+                                                   for a in list(n.args) + [k.value for k in n.keywords]):
+                out.append(('prec:to-dtype', n))
+            elif meth and nm == 'to' and any(isinstance(a, ast.Constant) and isinstance(a.value, str) for a in n.args):
+                out.append(('dev:to-literal', n))
+            elif isinstance(n.func, ast.Name) and n.func.id in ('float', 'int') and n.args and not isinstance(n.args[0], ast.Constant) and \
+                    any(isinstance(x, ast.Call) and ((dotted(x.func) or '').startswith('torch.') or (isinstance(x.func, ast.Attribute) and x.func.attr in ('item', 'norm', 'sum', 'max', 'min')))
+                        or isinstance(x, ast.Subscript) for x in ast.walk(n.args[0])):
+                out.append(('cut:py-' + n.func.id, n))
+            elif nm in GLOBAL_SETTERS and d.startswith(('torch.', 'warnings.', 'random.', 'np.')):
+                out.append(('glob:' + nm, n))
+            elif d == 'setattr' and n.args and not (isinstance(n.args[0], ast.Name) and n.args[0].id in ('self', 'cls')):
+                out.append(('glob:setattr', n))
+        elif isinstance(n, ast.With):
+            for it in n.items:
+                e = it.context_expr.func if isinstance(it.context_expr, ast.Call) else it.context_expr
+                if (dotted(e) or '').split('.')[-1] in GRAD_MODES:
+                    out.append(('mode:' + (dotted(e) or '').split('.')[-1], n))
+        elif isinstance(n, ast.Attribute) and n.attr == 'data' and isinstance(n.ctx, ast.Load) and not (isinstance(n.value, ast.Name) and n.value.id in ('self',)):
+            out.append(('cut:.data', n))
+        elif isinstance(n, ast.Subscript) and isinstance(n.ctx, (ast.Store, ast.Del)) and (dotted(n.value) or '') in ('os.environ',):
+            out.append(('glob:environ', n))
+    return out
+
+
+# (function, key) -> (number of sites read on the pinned tree, why they are harmless there)            (2026-09, /repo ab36dfe)
+HYGIENE_TABLE = {
+    ('pypose.function.geometry:voxel_filter', 'cut:item'): (1, 'number of points of a voxel as the bound of a random integer'),
+    ('pypose.lietensor.convert:mat2SO3', 'mode:no_grad'): (1, 'the validity checks (orthogonality, determinant) need no graph'),
+    ('pypose.lietensor.lietensor:SO3Type.randn', 'cut:detach'): (1, 'random sample: a leaf'), ('pypose.lietensor.lietensor:SE3Type.randn', 'cut:detach'): (1, 'random sample: a leaf'),
+    ('pypose.lietensor.lietensor:se3Type.randn', 'cut:detach'): (1, 'random sample: a leaf'), ('pypose.lietensor.lietensor:Sim3Type.randn', 'cut:detach'): (1, 'random sample: a leaf'),
+    ('pypose.lietensor.lietensor:sim3Type.randn', 'cut:detach'): (1, 'random sample: a leaf'), ('pypose.lietensor.lietensor:RxSO3Type.randn', 'cut:detach'): (1, 'random sample: a leaf'),
+    ('pypose.lietensor.lietensor:retain_ltype', 'glob:setattr'): (2, 'temporary patch of torch internals, undone in the finally block (C06.PATCH)'),
+    ('pypose.metric.ape_rpe:StampedSE3.reduce_to_ids', 'cut:tolist'): (1, 'index list'), ('pypose.metric.ape_rpe:StampedSE3.reduce_to_ids', 'prec:long'): (2, 'indices'),
+    ('pypose.metric.ape_rpe:StampedSE3.align', 'cut:.data'): (3, 'metric evaluation, no gradients promised'),
+    ('pypose.metric.ape_rpe:StampedSE3.cuda', 'dev:cuda'): (1, 'the explicit device move this method is'), ('pypose.metric.ape_rpe:StampedSE3.cpu', 'dev:cpu'): (1, 'the explicit device move this method is'),
+    ('pypose.metric.ape_rpe:matching_time_indices', 'cut:tolist'): (2, 'index lists'), ('pypose.metric.ape_rpe:pairs_by_frames', 'cut:tolist'): (4, 'index lists'),
+    ('pypose.metric.ape_rpe:pairs_by_frames', 'cut:py-int'): (1, 'frame step'), ('pypose.metric.ape_rpe:pairs_by_dist', 'cut:item'): (1, 'index'),
+    ('pypose.metric.ape_rpe:pairs_by_dist', 'cut:py-float'): (1, 'travelled distance used for pair selection only'), ('pypose.metric.ape_rpe:pair_id', 'cut:py-int'): (1, 'frame step'),
+    ('pypose.metric.ape_rpe:ape', 'cut:.data'): (1, 'metric evaluation'), ('pypose.metric.ape_rpe:rpe', 'cut:.data'): (1, 'metric evaluation'),
+    ('pypose.metric.ape_rpe:StampedSE3.__init__', 'prec:to-dtype'): (1, 'timestamps kept in float64'),
+    ('pypose.function.geometry:voxel_filter', 'prec:to-dtype'): (1, 'voxel indices are integers'),
+    ('pypose.module.imu_preintegrator:IMUPreintegrator.forward', 'cut:detach'): (4, 'the covariance propagation is documented as not differentiated'),
+    ('pypose.module.mpc:MPC.forward', 'mode:no_grad'): (1, 'the iLQR iterations before the last, differentiable, solve (documented)'),
+    ('pypose.module.pnp:EPnP._refine', 'cut:detach'): (1, 'step-size bookkeeping of the refinement'),
+    ('pypose.optim.corrector:FastTriggs.forward', 'mode:enable_grad'): (1, "rho' needs a graph inside the optimiser's no_grad step"),
+    ('pypose.optim.corrector:Triggs.compute_grads', 'mode:enable_grad'): (1, "rho', rho'' need a graph inside the optimiser's no_grad step"),
+    ('pypose.optim.functional:modjac', 'mode:enable_grad'): (1, 'differentiation inside the no_grad step'), ('pypose.optim.functional:modjacrev', 'mode:enable_grad'): (1, 'same'),
+    ('pypose.optim.functional:modjacfwd', 'mode:enable_grad'): (1, 'same'),
+    ('pypose.optim.optimizer:GaussNewton.step', 'mode:no_grad'): (1, 'an optimiser step is not differentiated (torch convention)'),
+    ('pypose.optim.optimizer:LevenbergMarquardt.step', 'mode:no_grad'): (1, 'same'), ('pypose.optim.scheduler:StopOnPlateau.optimize', 'mode:no_grad'): (1, 'same'),
+    ('pypose.optim.optimizer:_parameter_update_shape', 'cut:py-int'): (1, 'a shape'),
+    ('pypose.sparse.ops:bsr_bsc_matmul', 'cut:item'): (3, 'index arithmetic of the block merge-join'), ('pypose.sparse.ops:bsr_bsc_matmul', 'cut:py-int'): (3, 'same'),
+}
+
+
+@guarded
+def rule_hygiene(repo, rid, modules):
+    """detach / .item() / .data / no_grad cut the autograd graph; .cpu() / .float() change where and how precisely the numbers live; torch.set_* change the process.  Each
+    such site of the pinned tree was read and is tabled with the reason it is harmless THERE.  A new one ("to save memory", "it is only a diagnostic") on a path
+    that is differentiated, or run in float64 / on a GPU, silently returns zero gradients, float32 digits or a CPU tensor."""
+    res = RuleResult(rid, 'graph cuts (detach / item / tolist / numpy / .data / float(tensor)), device moves, numeric-type conversions, grad-mode switches and process-wide '
+                     'setters occur only at the %d reviewed (function, kind) entries of HYGIENE_TABLE, no more often than tabled' % len(HYGIENE_TABLE), floor=1)
+    n = 0
+    for m in modules:
+        for f in repo.module(m).functions.values():
+            n += 1
+            got = {}
+            for key, node in hygiene_sites(f):
+                got.setdefault(key, []).append(node)
+            for key, nodes in sorted(got.items()):
+                allowed, why = HYGIENE_TABLE.get((f.fq, key), (0, None))
+                res.inst({'function': f.fq, 'kind': key, 'sites': len(nodes), 'tabled': allowed, 'reason': why}, (f.fq, key))
+                if len(nodes) > allowed:
+                    x = nodes[-1] if allowed else nodes[0]
+                    what = {'cut': 'cuts the autograd graph (the value becomes a constant for every gradient that should flow through it)', 'dev': 'moves the data to a fixed device',
+                            'prec': 'converts the numeric type (digits / integer truncation)', 'mode': 'switches the grad mode for the code under it',
+                            'glob': 'sets process-wide state that outlives the call'}[key.split(':')[0]]
+                    res.add(Finding(rid, f, '`%s` %s; %s has %d such site(s) reviewed (%s) and now %d' % (src(x)[:60].replace('\n', ' ') if not isinstance(x, (ast.FunctionDef, ast.With)) else key,
+                                                                                                    what, f.fq.split(':')[-1], allowed, key, len(nodes)), node=x,
+                                    construct='unreviewed %s|%d' % (key, len(nodes))))
+    res.inst({'functions scanned': n}, 'scan')
+    return res
+
+
+ARGATTR_TABLE = {('pypose.lietensor.utils:_LieTensor_wrapper_add_docstr', '__doc__'): 'documentation string of a freshly created wrapper function'}
+
+
+def argattr_writes(fnode):
+    """[(stmt, base, param, attr)]: an attribute of an object the function RECEIVED is written (`arg.x = ..`, `arg.x -= 1`), also through `self.a` bound to the
+    argument in the same function (`self.stepper = stepper ... self.stepper.max_steps -= 1`)"""
+    a = fnode.args
+    params = {x.arg for x in a.posonlyargs + a.args + a.kwonlyargs} - {'self', 'cls'}
+    alias = {}
+    for n in _own_nodes(fnode):
+        if isinstance(n, ast.Assign) and len(n.targets) == 1 and isinstance(n.targets[0], ast.Attribute) and dotted(n.targets[0].value) == 'self':
+            # self.a = <param>  /  self.a = Default() if <param> is None else <param>
+            v = n.value
+            cands = [v] if not isinstance(v, ast.IfExp) else [v.body, v.orelse]
+            for c in cands:
+                if isinstance(c, ast.Name) and c.id in params:
+                    alias['self.' + n.targets[0].attr] = c.id
+    out = []
+    for n in _own_nodes(fnode):
+        tgts = []
+        if isinstance(n, ast.AugAssign):
+            tgts = [n.target]
+        elif isinstance(n, ast.Assign):
+            tgts = [t for t in n.targets if isinstance(t, ast.Attribute)]
+        for t in tgts:
+            if isinstance(t, ast.Attribute):
+                base = dotted(t.value)
+                if base in params:
+                    out.append((n, base, base, t.attr))
+                elif base in alias:
+                    out.append((n, base, alias[base], t.attr))
+    return out
+
+
+@guarded
+def rule_argattr(repo, rid, modules):
+    res = RuleResult(rid, 'no function re-configures an object it was handed: it writes no attribute of an argument (`arg.x = ..`, `arg.x -= 1`), directly or through '
+                     '`self.a` bound to that argument - the caller\'s object (a stepper, a strategy, a system) is shared with everything else the caller gives it to', floor=1)
+    n = 0
+    for m in modules:
+        for f in repo.module(m).functions.values():
+            n += 1
+            for st, base, par, attr in argattr_writes(f.node):
+                tab = ARGATTR_TABLE.get((f.fq, attr))
+                res.inst({'function': f.fq, 'write': src(st)[:60], 'argument': par, 'tabled': tab}, (f.fq, src(st)[:60]))
+                if tab is None:
+                    res.add(Finding(rid, f, '`%s` changes `%s` of the object the caller passed as `%s`: every other holder of that object - a second controller built with the same '
+                                    'stepper, the caller\'s own loop - sees the changed configuration, and each further construction changes it again' % (src(st)[:60], attr, par),
+                                    node=st, construct='argument object re-configured|%s.%s' % (par, attr)))
+    res.inst({'functions scanned': n}, 'scan')
+    fx = ast.parse('class A:\n    def __init__(self, stepper=None):\n        self.stepper = D() if stepper is None else stepper\n        self.stepper.max_steps -= 1\n        self.n = 0\n').body[0].body[0]
+    if len(argattr_writes(fx)) != 1:
+        raise AnalysisError('%s: fixture no longer classified' % rid)
+    return res
+
+
+_MUT_LITERALS = (ast.Dict, ast.List, ast.Set, ast.DictComp, ast.ListComp, ast.SetComp)
+_MUT_CTORS = {'dict', 'list', 'set', 'defaultdict', 'OrderedDict', 'collections.defaultdict', 'collections.OrderedDict', 'deque', 'collections.deque', 'WeakKeyDictionary',
+              'weakref.WeakKeyDictionary', 'WeakValueDictionary', 'weakref.WeakValueDictionary'}
+_CONT_MUTATORS = CONTAINER_MUTATORS | {'update', 'add', 'discard', 'appendleft'}
+# defaults that are objects built once at import time, and the memoising decorators of the pinned tree (2026-09, /repo ab36dfe)
+DEFAULT_OBJ_TABLE = {
+    ('pypose.lietensor.lietensor:LieTensor.__torch_function__', '{}'): 'the torch protocol default; never written',
+    ('pypose.module.imu_preintegrator:IMUPreintegrator.__init__', 'torch.zeros(3)'): 'default initial position / velocity, copied into the buffers (C16.BUFCOPY)',
+    ('pypose.module.imu_preintegrator:IMUPreintegrator.__init__', 'identity_SO3()'): 'default initial rotation, copied into the buffer (C16.BUFCOPY)',
+}
+CACHE_TABLE = {'pypose:_load_optional_backend_attr': 'lookup of an optional backend attribute by name (strings only)'}
+GLOBAL_REBIND_TABLE = {('pypose.optim.optimizer:_load_sparse_backend_globals', 'jacobian'): 'lazy import of the optional sparse backend (a function object, loaded once)',
+                       ('pypose.optim.optimizer:_load_sparse_backend_globals', 'diagonal_op_'): 'lazy import of the optional sparse backend (a function object, loaded once)'}
+
+
+def _is_mut_value(v):
+    return isinstance(v, _MUT_LITERALS) or (isinstance(v, ast.Call) and (dotted(v.func) or '') in _MUT_CTORS)
+
+
+def shared_state_sites(repo, f):
+    """[(node, what)] for a FuncInfo:
+      - a write into a module-level object from function scope (NAME[k] = v, NAME.append / update / reverse(..), `global NAME` re-binding): the object is one per
+        process, every caller and every instance sees the write;
+      - a write through self / cls into a container that lives on the CLASS (declared in the class body, not re-created per instance in __init__);
+      - a default argument that is an object built at import time (a call or a mutable literal) and is not tabled;
+      - a memoising decorator (lru_cache / cache) that is not tabled."""
+    out = []
+    mod = f.module
+    fnode = f.node
+    a = fnode.args
+    local = {x.arg for x in a.posonlyargs + a.args + a.kwonlyargs} | ({a.vararg.arg} if a.vararg else set()) | ({a.kwarg.arg} if a.kwarg else set())
+    globs = set()
+    for n in _own_nodes(fnode):
+        if isinstance(n, ast.Global):
+            globs |= set(n.names)
+        elif isinstance(n, ast.Name) and isinstance(n.ctx, ast.Store) and n.id not in globs:
+            local.add(n.id)
+    modnames = {k for k, v in mod.assigns.items() if k not in local and not k.startswith('__')}
+
+    # a local bound to a module-level object is that object
+    modalias = {}
+    for n in _own_nodes(fnode):
+        if isinstance(n, ast.Assign) and len(n.targets) == 1 and isinstance(n.targets[0], ast.Name) and isinstance(n.value, ast.Name) and \
+                n.value.id in mod.assigns and n.value.id not in (local - {n.targets[0].id}) and _is_mut_value(mod.assigns.get(n.value.id)):
+            modalias[n.targets[0].id] = n.value.id
+
+    def modroot(e):
+        while isinstance(e, (ast.Subscript, ast.Attribute)):
+            e = e.value
+        if isinstance(e, ast.Name) and e.id in modalias:
+            return modalias[e.id]
+        return e.id if isinstance(e, ast.Name) and e.id in modnames else None
+    for n in _own_nodes(fnode):
+        if isinstance(n, (ast.Assign, ast.AugAssign)):
+            tgts = n.targets if isinstance(n, ast.Assign) else [n.target]
+            for t in tgts:
+                if isinstance(t, ast.Subscript) and modroot(t) and isinstance(t.value, ast.Name):
+                    out.append((n, 'writes into the module-level object `%s`' % modroot(t)))
+                elif isinstance(t, ast.Name) and t.id in globs and (f.fq, t.id) not in GLOBAL_REBIND_TABLE:
+                    out.append((n, 're-binds the module-level name `%s`' % t.id))
+        elif isinstance(n, ast.Call) and isinstance(n.func, ast.Attribute) and n.func.attr in _CONT_MUTATORS and isinstance(n.func.value, ast.Name) and \
+                ((n.func.value.id in modnames and _is_mut_value(mod.assigns.get(n.func.value.id))) or n.func.value.id in modalias):
+            out.append((n, 'changes the module-level container `%s` in place' % modalias.get(n.func.value.id, n.func.value.id)))
+    # class-level containers written through self / cls
+    if f.cls is not None:
+        cls_cont = {}
+        for c in repo.mro(f.cls):
+            node = getattr(c, 'node', None)
+            if node is None:
+                continue
+            for b in node.body:
+                if isinstance(b, ast.Assign) and len(b.targets) == 1 and isinstance(b.targets[0], ast.Name) and _is_mut_value(b.value):
+                    cls_cont.setdefault(b.targets[0].id, c)
+        per_instance = set()
+        for c in repo.mro(f.cls):
+            ini = getattr(c, 'methods', {}).get('__init__') if hasattr(c, 'methods') else None
+            if ini is not None:
+                for x in ast.walk(ini.node):
+                    if isinstance(x, ast.Attribute) and isinstance(x.ctx, ast.Store) and isinstance(x.value, ast.Name) and x.value.id == 'self':
+                        per_instance.add(x.attr)
+        shared = {k for k in cls_cont if k not in per_instance and not k.startswith('__')}
+        for n in _own_nodes(fnode):
+            if isinstance(n, (ast.Assign, ast.AugAssign)):
+                tgts = n.targets if isinstance(n, ast.Assign) else [n.target]
+                for t in tgts:
+                    if isinstance(t, ast.Subscript) and isinstance(t.value, ast.Attribute) and dotted(t.value.value) in ('self', 'cls', f.cls.name) and t.value.attr in shared:
+                        out.append((n, 'writes into `%s`, a container declared on the CLASS (one for all instances)' % t.value.attr))
+            elif isinstance(n, ast.Call) and isinstance(n.func, ast.Attribute) and n.func.attr in _CONT_MUTATORS and isinstance(n.func.value, ast.Attribute) and \
+                    dotted(n.func.value.value) in ('self', 'cls', f.cls.name) and n.func.value.attr in shared:
+                out.append((n, 'changes `%s`, a container declared on the CLASS (one for all instances), in place' % n.func.value.attr))
+    for d in list(a.defaults) + [x for x in a.kw_defaults if x is not None]:
+        if (isinstance(d, _MUT_LITERALS) or isinstance(d, ast.Call)) and (f.fq, src(d)) not in DEFAULT_OBJ_TABLE:
+            out.append((d, 'is a default argument built ONCE at import time: every call that omits the argument gets the same object (and whatever earlier calls did to it, '
+                           'or the configuration of the process at import)'))
+    for dn in f.decorator_names():
+        if dn.split('.')[-1] in ('lru_cache', 'cache', 'cached_property') and f.fq not in CACHE_TABLE:
+            out.append((fnode, 'memoises results process-wide (`%s`): a returned tensor is one object for all callers, and the key ignores whatever is not an argument' % dn))
+    return out
+
+
+@guarded
+def rule_sharedstate(repo, rid, modules):
+    res = RuleResult(rid, 'no function keeps state that is shared by the whole process or by all instances of a class: no write into a module-level object, no write through '
+                     'self / cls into a container declared on the class, no default argument that is an object built at import time, no memoising decorator - beyond the %d '
+                     'tabled sites' % (len(DEFAULT_OBJ_TABLE) + len(CACHE_TABLE)), floor=1)
+    n = 0
+    for m in modules:
+        for f in repo.module(m).functions.values():
+            n += 1
+            for node, what in shared_state_sites(repo, f):
+                res.inst({'function': f.fq, 'site': src(node)[:50] if not isinstance(node, ast.FunctionDef) else 'decorator'}, (f.fq, what[:40], getattr(node, 'lineno', 0)))
+                res.add(Finding(rid, f, '`%s` %s: two objects / two calls / two configurations in one process interact through it' %
+                                (src(node)[:50].replace('\n', ' ') if not isinstance(node, ast.FunctionDef) else f.fq.split(':')[-1], what), node=node,
+                                construct='shared state|' + what[:50]))
+    res.inst({'functions scanned': n}, 'scan')
+    return res
+
+
+@guarded
+def rule_globals(repo, rid):
+    """A process-wide torch / warnings / environment setter changes the behaviour of EVERY function of the package that runs afterwards (default dtype, matmul
+    precision, grad mode, deterministic flags), whatever module it sits in: scanned over the whole package for every property."""
+    res = RuleResult(rid, 'nowhere in the package a function sets process-wide state (torch.set_default_dtype / set_float32_matmul_precision / set_grad_enabled / '
+                     'use_deterministic_algorithms / manual_seed, warnings filters, os.environ, setattr on a module) beyond the tabled retain_ltype patch', floor=1)
+    n = 0
+    for mname, m in sorted(repo.modules.items()):
+        if mname.startswith('pypose.testing') or mname == 'pypose.utils.collect_env':
+            continue
+        for f in m.functions.values():
+            n += 1
+            sites = [(k, x) for k, x in hygiene_sites(f) if k.startswith('glob:')]
+            got = {}
+            for k, x in sites:
+                got.setdefault(k, []).append(x)
+            for k, nodes in got.items():
+                allowed, why = HYGIENE_TABLE.get((f.fq, k), (0, None))
+                res.inst({'function': f.fq, 'setter': k, 'sites': len(nodes), 'tabled': allowed}, (f.fq, k))
+                if len(nodes) > allowed:
+                    res.add(Finding(rid, f, '`%s` sets process-wide state in %s and never scopes it: every later call of any function of the package (and of the user\'s '
+                                    'program) runs under the changed setting' % (src(nodes[-1])[:60], f.fq.split(':')[-1]), node=nodes[-1], construct='process-wide setter|' + k))
+    res.inst({'functions scanned': n}, 'scan')
+    return res
+
+
 # ------------------------------------------------------------------------------------------------ sites read and tabled (2026-09, HEAD e00fd9c)
 EXEMPT_DT = {
     ('pypose.function.geometry:voxel_filter', 'torch.tensor(v0, device=v1.device)'): 'voxel sizes given as a Python list: used as a divisor, type-promoted with the points',
@@ -591,4 +993,4 @@ def mode_rules(repo, pid, modules):
     from .ipalias import rule_ipalias, rule_lostupdate, rule_storage
     from .unused import rule_unused
     return [rule_dtype_mod(repo, pid + '.DTMOD', modules, EXEMPT_DT), rule_mode(repo, pid + '.MODE', modules, EXEMPT_MODE),
-            rule_ipalias(repo, pid + '.IPA', modules), rule_unused(repo, pid + '.UNUSED', modules), rule_cast(repo, pid + '.CAST', modules), rule_api(repo, pid + '.API', modules), rule_lostupdate(repo, pid + '.LOST', modules), rule_guardset(repo, pid + '.GUARDS', modules), rule_rng(repo, pid + '.RNG', modules), rule_attrs(repo, pid + '.ATTRS', modules), rule_argmut(repo, pid + '.ARGMUT', modules), rule_storage(repo, pid + '.STORAGE', modules)]
+            rule_ipalias(repo, pid + '.IPA', modules), rule_unused(repo, pid + '.UNUSED', modules), rule_cast(repo, pid + '.CAST', modules), rule_api(repo, pid + '.API', modules), rule_lostupdate(repo, pid + '.LOST', modules), rule_guardset(repo, pid + '.GUARDS', modules), rule_rng(repo, pid + '.RNG', modules), rule_attrs(repo, pid + '.ATTRS', modules), rule_argmut(repo, pid + '.ARGMUT', modules), rule_storage(repo, pid + '.STORAGE', modules), rule_hygiene(repo, pid + '.HYGIENE', modules), rule_argattr(repo, pid + '.ARGATTR', modules), rule_sharedstate(repo, pid + '.SHAREDST', modules), rule_globals(repo, pid + '.GLOBALS')]
